@@ -19,7 +19,7 @@ for d in sorted(glob.glob(os.path.join(V, "seeded", "C*-*"))):
     prop = sid.split("-")[0]
     meta = json.load(open(os.path.join(d, "meta.json")))
     try:
-        sc = selftest.make_scratch(13, os.path.join(d, "patch.diff"))
+        sc = selftest.make_scratch(int(os.environ.get("SEED_SLOT", "13")), os.path.join(d, "patch.diff"))
     except gen.CheckerError as e:
         meta["check_result"] = "patch no longer applies to /repo HEAD (the tree moved on after later fix: commits): %s" % str(e).split("\n")[0][:120]
         meta["detected"] = None
